@@ -452,9 +452,9 @@ class SymR:
                 return format(int(self.c), spec) if spec else str(int(self.c))
             return format(float(self.c), spec)
         c = ctx()
-        tid = z3.simplify(self.term()).get_id()
+        mine = z3.simplify(self.term())      # kept alive while comparing (ast ids are unique among live terms only)
         for tok, v in c.tokens.items():
-            if z3.simplify(v.term()).get_id() == tid:
+            if z3.simplify(v.term()).eq(mine):
                 return tok
         tok = f"<sym{len(c.tokens)}>"
         c.tokens[tok] = self
@@ -922,6 +922,7 @@ def sym_sqrt(x):
         key = ('sqrt', tuple(sorted(poly.items())))
     except Exception:
         key = ('sqrt', x.term().get_id())
+        c.keepalive[key] = x.term()
     hit = c.bases.get(key)
     if hit is not None:
         return hit
@@ -955,6 +956,7 @@ def sym_cbrt(x):
     except Exception:
         poly, _pr = None, None
         key = ('cbrt', x.term().get_id())
+        c.keepalive[key] = x.term()
     hit = c.bases.get(key)
     if hit is not None:
         return hit
@@ -996,6 +998,7 @@ def sym_mod(a, m):
         mkey = ('mod', canon_key(a.term(), c), canon_key(m.term(), c))
     except Exception:
         mkey = ('mod', a.term().get_id(), m.term().get_id())
+        c.keepalive[mkey] = (a.term(), m.term())
     hit = c.bases.get(mkey)
     if hit is not None:
         return hit
@@ -1458,6 +1461,7 @@ def sym_arctan2(y, x):
         key = ('atan2', canon_key(y.term(), c), canon_key(x.term(), c))
     except Exception:
         key = ('atan2', y.term().get_id(), x.term().get_id())
+        c.keepalive[key] = (y.term(), x.term())
     hit = c.bases.get(key)
     if hit is not None:
         return hit
